@@ -1013,6 +1013,7 @@ class FuncGen:
         self.types = {}      # ir local name -> T
         self.undef_n = 0
         self.loopspec = loopspec
+        self.ext = {}
         self.short = cg.cname.get(f.name) or san(f.name)
 
     def lname(self, n, prefix='v_'):
@@ -1059,7 +1060,7 @@ class FuncGen:
             if k == 'zero':
                 tt = self.rt(t)
                 if tt.k in ('struct', 'array'):
-                    self.decls.append('%s %s; __builtin_memset(&%s, 0, sizeof(%s));' % (ct, nm, nm, nm))
+                    self.decls.append('%s %s; memset(&%s, 0, sizeof(%s));' % (ct, nm, nm, nm))
                 else:
                     self.decls.append('%s %s = 0;' % (ct, nm))
             else:
@@ -1173,6 +1174,15 @@ class FuncGen:
             return conv
         raise Unsupported('cast ' + op)
 
+    def sbits(self, v):
+        """signed bits sufficient for operand v when it is an extension of a narrower value or a constant"""
+        if v[0] == 'local':
+            return self.ext.get(v[1])
+        if v[0] == 'int':
+            x = v[1]
+            return (x.bit_length() if x >= 0 else (-x - 1).bit_length()) + 1
+        return None
+
     # -- integer binary ops
     def bin_expr(self, op, a, b, flags, pre):
         n = self.bits(a[2])
@@ -1189,6 +1199,14 @@ class FuncGen:
         if op in ('add', 'sub', 'mul'):
             sym = {'add': '+', 'sub': '-', 'mul': '*'}[op]
             fn = {'add': 'plus', 'sub': 'minus', 'mul': 'mult'}[op]
+            if pre is not None and 'nsw' in flags:
+                ka, kb = self.sbits(a), self.sbits(b)
+                if ka is not None and kb is not None and ((op == 'mul' and ka + kb <= n) or (op != 'mul' and max(ka, kb) + 1 <= n)):
+                    # both operands are sign/zero extensions of narrow values (or small constants): by width arithmetic the
+                    # exact result needs at most n bits, so this nsw flag can never fire -- discharged by the printer
+                    pre.append('__CPROVER_assert(1, "UB.signed-overflow: %s nsw in %s discharged by operand widths (%d and %d signed bits into i%d)");'
+                               % (op, S, ka, kb, n))
+                    flags = tuple(f for f in flags if f != 'nsw')
             if pre is not None:
                 if 'nsw' in flags:
                     pre.append('__CPROVER_assert(!%s, "UB.signed-overflow: %s nsw in %s");'
@@ -1197,6 +1215,8 @@ class FuncGen:
                     pre.append('__CPROVER_assert(!%s, "UB.unsigned-wrap: %s nuw in %s");'
                                % (ovf(sym, n, '((%s)%s)' % (ct, x), '((%s)%s)' % (ct, y), False), op, S))
             w = wide_t(n)
+            if op == 'mul' and n in (8, 16, 32, 64, 128):
+                return 'VP_MUL%d(%s, %s)' % (n, x, y)
             return '((%s)((%s)%s %s (%s)%s))' % (ct, w, x, sym, w, y)
         if op in ('and', 'or', 'xor'):
             sym = {'and': '&', 'or': '|', 'xor': '^'}[op]
@@ -1371,6 +1391,10 @@ class FuncGen:
             if sym is None:
                 raise Unsupported(op)
             self.rt(ins.ty).k in ('float', 'double') or self._bad('fp type ' + self.rt(ins.ty).key())
+            fk = self.rt(ins.ty).k
+            if op in ('fdiv', 'fmul'):
+                out.append('  %s = VP_%s_%s(%s, %s);' % (self.declare(ins.res, ins.ty), op.upper(), 'F' if fk == 'float' else 'D', self.val(ins.a[0]), self.val(ins.a[1])))
+                return
             out.append('  %s = %s %s %s;' % (self.declare(ins.res, ins.ty), self.val(ins.a[0]), sym, self.val(ins.a[1])))
             return
         if op == 'fneg':
@@ -1424,6 +1448,9 @@ class FuncGen:
             return
         if op == 'cast':
             cop, v, dt = ins.a
+            if cop in ('sext', 'zext') and self.rt(v[2]).k == 'int' and ins.res is not None:
+                k = self.rt(v[2]).a
+                self.ext[ins.res] = k if cop == 'sext' else k + 1     # signed bits needed
             pre = []
             e = self.cast_expr(cop, v, dt, pre)
             out.extend('  ' + x for x in pre)
@@ -1572,10 +1599,10 @@ class FuncGen:
         if base in ('lifetime', 'dbg', 'assume', 'experimental', 'donothing', 'var'):
             return
         if base in ('memcpy', 'memmove'):
-            out.append('  __builtin_%s(%s, %s, %s);' % (base, self.val(a[0]), self.val(a[1]), self.val(a[2])))
+            out.append('  %s(%s, %s, %s);' % (base, self.val(a[0]), self.val(a[1]), self.val(a[2])))
             return
         if base == 'memset':
-            out.append('  __builtin_memset(%s, %s, %s);' % (self.val(a[0]), self.val(a[1]), self.val(a[2])))
+            out.append('  memset(%s, (int)%s, %s);' % (self.val(a[0]), self.val(a[1]), self.val(a[2])))
             return
         if base in ('ctlz', 'cttz'):
             n = self.bits(a[0][2])
@@ -1616,8 +1643,11 @@ class FuncGen:
             else:
                 ov = ovf(sym, n, '((%s)%s)' % (ct, self.val(a[0])), '((%s)%s)' % (ct, self.val(a[1])), False)
             nm = res()
-            out.append('  %s.f0 = (%s)((%s)%s %s (%s)%s); %s.f1 = %s;'
-                       % (nm, ct, w, self.val(a[0]), sym, w, self.val(a[1]), nm, ov))
+            if sym == '*' and n in (8, 16, 32, 64, 128):
+                out.append('  %s.f0 = VP_MUL%d(%s, %s); %s.f1 = %s;' % (nm, n, self.val(a[0]), self.val(a[1]), nm, ov))
+            else:
+                out.append('  %s.f0 = (%s)((%s)%s %s (%s)%s); %s.f1 = %s;'
+                           % (nm, ct, w, self.val(a[0]), sym, w, self.val(a[1]), nm, ov))
             return
         if base in ('fabs', 'floor', 'ceil', 'trunc', 'sqrt', 'round', 'rint', 'nearbyint'):
             t = self.rt(ins.ty)
@@ -1657,6 +1687,11 @@ class FuncGen:
 def ovf(sym, n, x, y, signed):
     """overflow predicate by exact arithmetic in a wider vector (CBMC's __CPROVER_overflow_* builtins promote
     non-standard operand widths such as the i33 clang uses for mixed-sign __builtin_*_overflow, and then miss the overflow)"""
+    if n in (32, 64, 128):
+        # operands of these widths are not promoted by C, so CBMC's dedicated overflow predicates are exact (and much
+        # cheaper for multiplication than a 2n+2-bit product)
+        fn = {'+': 'plus', '-': 'minus', '*': 'mult'}[sym]
+        return '__CPROVER_overflow_%s(%s, %s)' % (fn, x, y)
     k = (2 * n + 2) if sym == '*' else n + 2
     wk = '__CPROVER_bitvector[%d]' % k
     tn = sint(n) if signed else ('uint%d_t' % n if n in (8, 16, 32, 64) else 'vp_u%d' % n)
@@ -1691,8 +1726,45 @@ def smin(n):
 PRELUDE = r'''
 #include <stdint.h>
 #include <stddef.h>
+#include <string.h>
 typedef unsigned __int128 vp_u128;
 typedef __int128 vp_s128;
+/* every IR 'mul' goes through VP_MULn: the machine product modulo 2^n, or -- when a job abstracts multiplication
+   (-DVP_ABSTRACT_MUL) -- one uninterpreted function per width shared by the extracted code and the contract text, so
+   that relational obligations follow by congruence instead of a multiplier-equivalence SAT problem */
+#ifdef VP_ABSTRACT_FP
+float __CPROVER_uninterpreted_fdivf(float, float);
+double __CPROVER_uninterpreted_fdivd(double, double);
+float __CPROVER_uninterpreted_fmulf(float, float);
+double __CPROVER_uninterpreted_fmuld(double, double);
+#define VP_FDIV_F(a, b) __CPROVER_uninterpreted_fdivf((float)(a), (float)(b))
+#define VP_FDIV_D(a, b) __CPROVER_uninterpreted_fdivd((double)(a), (double)(b))
+#define VP_FMUL_F(a, b) __CPROVER_uninterpreted_fmulf((float)(a), (float)(b))
+#define VP_FMUL_D(a, b) __CPROVER_uninterpreted_fmuld((double)(a), (double)(b))
+#else
+#define VP_FDIV_F(a, b) ((float)(a) / (float)(b))
+#define VP_FDIV_D(a, b) ((double)(a) / (double)(b))
+#define VP_FMUL_F(a, b) ((float)(a) * (float)(b))
+#define VP_FMUL_D(a, b) ((double)(a) * (double)(b))
+#endif
+#ifdef VP_ABSTRACT_MUL
+uint8_t __CPROVER_uninterpreted_mul8(uint8_t, uint8_t);
+uint16_t __CPROVER_uninterpreted_mul16(uint16_t, uint16_t);
+uint32_t __CPROVER_uninterpreted_mul32(uint32_t, uint32_t);
+uint64_t __CPROVER_uninterpreted_mul64(uint64_t, uint64_t);
+vp_u128 __CPROVER_uninterpreted_mul128(vp_u128, vp_u128);
+#define VP_MUL8(a, b) __CPROVER_uninterpreted_mul8((uint8_t)(a), (uint8_t)(b))
+#define VP_MUL16(a, b) __CPROVER_uninterpreted_mul16((uint16_t)(a), (uint16_t)(b))
+#define VP_MUL32(a, b) __CPROVER_uninterpreted_mul32((uint32_t)(a), (uint32_t)(b))
+#define VP_MUL64(a, b) __CPROVER_uninterpreted_mul64((uint64_t)(a), (uint64_t)(b))
+#define VP_MUL128(a, b) __CPROVER_uninterpreted_mul128((vp_u128)(a), (vp_u128)(b))
+#else
+#define VP_MUL8(a, b) ((uint8_t)((uint32_t)(a) * (uint32_t)(b)))
+#define VP_MUL16(a, b) ((uint16_t)((uint32_t)(a) * (uint32_t)(b)))
+#define VP_MUL32(a, b) ((uint32_t)((uint32_t)(a) * (uint32_t)(b)))
+#define VP_MUL64(a, b) ((uint64_t)((uint64_t)(a) * (uint64_t)(b)))
+#define VP_MUL128(a, b) ((vp_u128)((vp_u128)(a) * (vp_u128)(b)))
+#endif
 '''
 
 
